@@ -80,9 +80,12 @@ impl Acc {
     }
     #[inline]
     pub fn max(&mut self, name: &str, v: u64) {
-        let e = self.maxima.entry(name.to_string()).or_insert(0);
-        if v > *e {
-            *e = v;
+        if let Some(e) = self.maxima.get_mut(name) {
+            if v > *e {
+                *e = v;
+            }
+        } else {
+            self.maxima.insert(name.to_string(), v);
         }
     }
     #[inline]
@@ -435,4 +438,92 @@ pub fn guarded<T>(f: impl FnOnce() -> T) -> Result<T, String> {
 /// and reported as violations; the default hook would flood stderr).
 pub fn quiet_panics() {
     std::panic::set_hook(Box::new(|_| {}));
+}
+
+// ---------------------------------------------------------------- watchdog
+
+use std::sync::atomic::{AtomicU64, Ordering as AO};
+use std::sync::Mutex;
+
+const SLOTS: usize = 64;
+static WATCH_START: [AtomicU64; SLOTS] = [const { AtomicU64::new(0) }; SLOTS];
+static WATCH_DESC: Mutex<Vec<String>> = Mutex::new(Vec::new());
+static NEXT_SLOT: AtomicU64 = AtomicU64::new(0);
+thread_local! {
+    static MY_SLOT: usize = (NEXT_SLOT.fetch_add(1, AO::Relaxed) as usize) % SLOTS;
+}
+
+fn now_ms() -> u64 {
+    use std::time::{SystemTime, UNIX_EPOCH};
+    SystemTime::now().duration_since(UNIX_EPOCH).map(|d| d.as_millis() as u64).unwrap_or(1)
+}
+
+/// Announce the case the calling thread is about to run (cheap: one atomic store; the
+/// description is only materialised every `every`-th call through `desc`).
+pub fn watch_enter(desc: impl FnOnce() -> String) {
+    MY_SLOT.with(|s| {
+        let d = desc();
+        if let Ok(mut v) = WATCH_DESC.lock() {
+            if v.len() < SLOTS {
+                v.resize(SLOTS, String::new());
+            }
+            v[*s] = d;
+        }
+        WATCH_START[*s].store(now_ms(), AO::Relaxed);
+    });
+}
+
+/// Re-arm the timer of the running case (one atomic store, called before every guarded call).
+#[inline]
+pub fn watch_tick() {
+    MY_SLOT.with(|s| WATCH_START[*s].store(now_ms(), AO::Relaxed));
+}
+
+pub fn watch_exit() {
+    MY_SLOT.with(|s| WATCH_START[*s].store(0, AO::Relaxed));
+}
+
+/// Starts the monitor thread: a single guarded call that runs longer than `max_secs` or a
+/// process that holds more than `max_bytes` is reported as a violation (with the description of
+/// the running case) and the process exits with status 1 - a hung check would be no verdict.
+pub fn start_watchdog(property: &str, verif_dir: &str, max_secs: u64, max_bytes: isize) {
+    let property = property.to_string();
+    let verif_dir = verif_dir.to_string();
+    std::thread::spawn(move || loop {
+        std::thread::sleep(std::time::Duration::from_millis(250));
+        let now = now_ms();
+        let live = crate::alloc::PROCESS_LIVE.load(std::sync::atomic::Ordering::Relaxed);
+        let mut culprit: Option<(usize, &str)> = None;
+        for (i, st) in WATCH_START.iter().enumerate() {
+            let t = st.load(AO::Relaxed);
+            if t != 0 && now.saturating_sub(t) > max_secs * 1000 {
+                culprit = Some((i, "no progress (loop watchdog)"));
+                break;
+            }
+        }
+        if culprit.is_none() && live > max_bytes {
+            // blame the longest running case
+            let mut best: Option<(usize, u64)> = None;
+            for (i, st) in WATCH_START.iter().enumerate() {
+                let t = st.load(AO::Relaxed);
+                if t != 0 && best.map(|b| t < b.1).unwrap_or(true) {
+                    best = Some((i, t));
+                }
+            }
+            if let Some((i, _)) = best {
+                culprit = Some((i, "allocation beyond the process cap (memory watchdog)"));
+            }
+        }
+        if let Some((i, why)) = culprit {
+            let desc = WATCH_DESC.lock().map(|v| v.get(i).cloned().unwrap_or_default()).unwrap_or_default();
+            let key = format!("watchdog/{desc}");
+            let _ = std::fs::create_dir_all(format!("{verif_dir}/replays"));
+            let path = format!("{verif_dir}/replays/{property}-{:016x}.json", h64(&key));
+            let body = json!({"property": property, "tier": "quick", "seed": 0, "key": key, "case": {"key": key}, "trace": format!("{why}: {desc}")});
+            let _ = std::fs::write(&path, serde_json::to_string_pretty(&body).unwrap());
+            println!("--- violation {key} ---\n{why}: the call did not return / kept allocating\ncase: {desc}");
+            println!("VIOLATION property={property} replay={path}");
+            std::process::exit(EXIT_VIOLATION);
+        }
+    });
 }
